@@ -35,7 +35,7 @@ TARGETS = [
     ("crates/texlang-stdlib/src/conditional.rs", ["texlang-stdlib"], ["C07"]),
     ("crates/texlang-stdlib/src/expansion.rs", ["texlang-stdlib"], ["C07"]),
     ("crates/texlang/src/vm/serde.rs", ["texlang", "texlang-stdlib"], ["C08"]),
-    ("crates/texlang/src/vm/streams.rs", ["texlang", "texlang-stdlib"], ["C19", "C07", "C02"]),
+    ("crates/texlang/src/vm/streams.rs", ["texlang", "texlang-stdlib"], ["C19", "C07", "C02", "C01"]),
     ("crates/texlang/src/vm/mod.rs", ["texlang", "texlang-stdlib"], ["C19", "C08", "C09", "C01"]),
     ("crates/texlang-stdlib/src/input.rs", ["texlang-stdlib"], ["C19"]),
     ("crates/texlang-stdlib/src/endlinechar.rs", ["texlang-stdlib"], ["C03", "C01"]),
